@@ -157,6 +157,18 @@ Section Agree.
     - exfalso. apply H. reflexivity.
   Qed.
 
+  Lemma merge_xref_stream_x_agrees buf x start :
+    merge_xref_stream buf x start <> SUnm ->
+    merge_xref_stream_x decompress can_decompress buf x start = merge_xref_stream buf x start.
+  Proof.
+    unfold merge_xref_stream, merge_xref_stream_x. intro H.
+    destruct start as [o|]; [|reflexivity]. destruct o; try reflexivity.
+    destruct ((z <? 0)%Z || (Loader.blen buf <? Z.to_N z)); [reflexivity|].
+    assert (E : xref_and_trailer buf (Z.to_N z) <> SUnm).
+    { intro E. rewrite E in H. apply H. reflexivity. }
+    rewrite (xref_and_trailer_x_agrees buf (Z.to_N z) E). reflexivity.
+  Qed.
+
   Lemma prev_loop_x_agrees buf : forall fuel x t prev seen,
     prev_loop fuel buf x t prev seen <> SUnm ->
     prev_loop_x decompress can_decompress fuel buf x t prev seen = prev_loop fuel buf x t prev seen.
@@ -167,17 +179,18 @@ Section Agree.
       cbn [prev_loop prev_loop_x] in *.
       destruct (existsb (Z.eqb z) seen); [reflexivity|].
       destruct ((z <? 0)%Z || (Loader.blen buf <? Z.to_N z)); [reflexivity|].
+      assert (E0 : merge_xref_stream buf x (dict_get t K_XRefStm) <> SUnm).
+      { intro E. rewrite E in H. apply H. reflexivity. }
+      rewrite (merge_xref_stream_x_agrees buf x _ E0).
+      destruct (merge_xref_stream buf x (dict_get t K_XRefStm)) as [x1|e| | |]; try reflexivity.
       assert (E1 : xref_and_trailer buf (Z.to_N z) <> SUnm).
       { intro E. rewrite E in H. apply H. reflexivity. }
       rewrite (xref_and_trailer_x_agrees buf (Z.to_N z) E1).
       destruct (xref_and_trailer buf (Z.to_N z)) as [[px pt]|e| | |]; try reflexivity.
-      destruct (dict_get t K_XRefStm) as [q|]; [|apply IH; exact H].
-      destruct q; try (apply IH; exact H).
-      destruct ((z0 <? 0)%Z || (Loader.blen buf <? Z.to_N z0)); [reflexivity|].
-      assert (E2 : xref_and_trailer buf (Z.to_N z0) <> SUnm).
+      assert (E2 : merge_xref_stream buf px (dict_get pt K_XRefStm) <> SUnm).
       { intro E. rewrite E in H. apply H. reflexivity. }
-      rewrite (xref_and_trailer_x_agrees buf (Z.to_N z0) E2).
-      destruct (xref_and_trailer buf (Z.to_N z0)) as [[sx st]|e| | |]; try reflexivity.
+      rewrite (merge_xref_stream_x_agrees buf px _ E2).
+      destruct (merge_xref_stream buf px (dict_get pt K_XRefStm)) as [px1|e| | |]; try reflexivity.
       apply IH. exact H.
   Qed.
 
